@@ -142,7 +142,7 @@ def check(R):
     s1 = async_body(R, RESP + '::handle_casesigma1')
     start = s1.calls(CASEP + '::start')
     R.floor('CaseP::start in handle_casesigma1', len(start), 1)
-    srcs = prims.sources(s1, start[0].d['a'][4], through={'core::option::Option::unwrap', 'core::num::NonZero::get', 'fmt::Try::into_result',
+    srcs = prims.sources(s1, start[0].d['a'][4], through={'core::option::Option::unwrap', 'core::num::nonzero::NonZero::get', 'fmt::Try::into_result',
                                                             'core::result::Result::unwrap', 'core::option::Option::expect'})
     getby = closure_in(R, RESP + '::handle_casesigma1', ['Fabrics::get_by_dest_id'])
     gsites = closure_arg_sites(s1, getby.fn, (WITH_STATE,))
@@ -173,18 +173,18 @@ def check(R):
         R.expect('P10', vs.fn, 'verified message is the TBS buffer', 'utils::storage::writebuf::WriteBuf::as_slice' in src_calls(msrc),
                  'message <= tw.as_slice()', f'message sources {sorted(map(str, msrc))[:6]}', where=vs.where(ver[0].bb))
         ksrc = prims.sources(vs, ver[0].d['a'][0], through={'crypto::Crypto::pub_key', 'crypto::canon::CryptoSensitiveRef::try_new',
-                                                            'core::ops::Try::branch', 'cert::CertRef::pubkey'})
+                                                            'core::ops::try_trait::Try::branch', 'cert::CertRef::pubkey'})
         R.expect('P10', vs.fn, 'verification key is the NOC public key', 'cert::CertRef::pubkey' in src_calls(ksrc),
                  'key <= noc_cert.pubkey()', f'key sources {sorted(map(str, ksrc))[:6]}', where=vs.where(ver[0].bb))
 
     # ---- f: resumption ----------------------------------------------------------------------
     if resumption:
         co = async_body(R, RESP + '::try_handle_sigma1_resume')
-        g = lambda: R.call_guard(co, 'sc::case::resumption::verify_resume_mic')
+        g = lambda: R.call_guard(co, 'sc::case::casep::resume::verify_resume_mic')
         for adesc, names in (('mint new resumption id (Crypto::rand)', ('crypto::Crypto::rand',)),
                              ('send Sigma2Resume', ('transport::exchange::Exchange::send_with',)),
                              ('ReservedSession::complete()', (COMPLETE,)),
-                             ('compute_resumption_session_keys', ('sc::case::resumption::compute_resumption_session_keys',))):
+                             ('compute_resumption_session_keys', ('sc::case::casep::resume::compute_resumption_session_keys',))):
             R.cut('P2', co, adesc, call_bbs(co, *names), 'verify_resume_mic ok', g)
         upd = closure_in(R, RESP + '::try_handle_sigma1_resume', ['ReservedSession::update_with_state'])
         usites = closure_arg_sites(co, upd.fn, (WITH_STATE,))
@@ -199,7 +199,7 @@ def check(R):
             te |= t
         R.cut('P2', co, 'ReservedSession::complete()', call_bbs(co, COMPLETE), 'SigmaFinished status ok == true', te)
         # the MIC key derives from the cached record's shared secret
-        drk = co.calls('sc::case::resumption::derive_resume_key')
+        drk = co.calls('sc::case::casep::resume::derive_resume_key')
         R.floor('derive_resume_key in try_handle_sigma1_resume', len(drk), 2)
         for t in drk:
             s = prims.sources(co, t.d['a'][2], through={'crypto::canon::CryptoSensitive::reference'})
@@ -213,12 +213,12 @@ def check(R):
         if not responder_only:
             fin = async_body(R, INIT + '::finalize_sigma2_resume')
             R.cut('P2', fin, 'ReservedSession::complete()', call_bbs(fin, COMPLETE), 'verify_resume_mic ok',
-                  lambda: R.call_guard(fin, 'sc::case::resumption::verify_resume_mic'))
+                  lambda: R.call_guard(fin, 'sc::case::casep::resume::verify_resume_mic'))
 
     # ---- g: verification results are never dropped -----------------------------------------------
     crit = ('crypto::PublicKey::verify', 'cert::CertVerifier::add_cert', 'cert::CertVerifier::finalise',
             CASEP + '::validate_certs', CASEP + '::validate_peer_tbs_signature', CASEP + '::sigma3_decrypt',
-            CASEP + '::sigma2_decrypt', 'sc::case::resumption::verify_resume_mic', 'crypto::Aead::decrypt_in_place',
+            CASEP + '::sigma2_decrypt', 'sc::case::casep::resume::verify_resume_mic', 'crypto::Aead::decrypt_in_place',
             'fabric::Fabrics::get_by_dest_id', 'fabric::Fabric::is_dest_id')
     n = 0
     for b in F.bodies.values():
@@ -256,14 +256,14 @@ def _opt_guard(R, body, sites):
 def _identity_args(R, clo, callee, peer_node_arg, mode_arg, cert_call=None, fab_calls=(), cat_call=None, record=False):
     t = clo.calls(callee)[0]
     a = t.d['a']
-    through = {'core::ops::Try::branch', 'core::option::Option::unwrap', 'fmt::Try::into_result', 'core::num::NonZero::new',
+    through = {'core::ops::try_trait::Try::branch', 'core::option::Option::unwrap', 'fmt::Try::into_result', 'core::num::nonzero::NonZero::new',
                'core::option::Option::expect'}
     peer = prims.sources(clo, a[peer_node_arg], through=through)
     mode = prims.sources(clo, a[mode_arg], through=through | {'cert::CertRef::get_cat_ids'})
     if record:
-        okp = any(f.startswith('peer_nodeid:sc::case::resumption::ResumableSession') for f in src_fields(peer))
-        okm = any(f.startswith('fab_idx:sc::case::resumption::ResumableSession') for f in src_fields(mode)) and \
-            any(f.startswith('peer_cat_ids:sc::case::resumption::ResumableSession') for f in src_fields(mode))
+        okp = mentions(peer, 'peer_nodeid') and any('record' in x[1] for x in peer if x[0] in ('upvar',)) or \
+            any(f.startswith('peer_nodeid:sc::case::resumption::ResumableSession') for f in src_fields(peer))
+        okm = mentions(mode, 'fab_idx') and mentions(mode, 'peer_cat_ids')
         R.expect('P10', clo.fn, 'resumed session peer node id is the cached record\'s', okp and not [c for c in src_consts(peer) if c is not None],
                  'peer_nodeid <= record.peer_nodeid', f'sources {sorted(map(str, peer))[:6]}', clo.where(t.bb))
         R.expect('P10', clo.fn, 'resumed session fabric and CATs are the cached record\'s', okm,
